@@ -829,3 +829,11 @@ add('C19.twin_array_maps', 'C19', [
     (TP, _MAPS_OLD[1], "    self._original_op_id_map[subgraph_id][original_op_id:] += num_ops_added\n"),
     (TP, _MAPS_OLD[2], "    return int(np.searchsorted(self._original_op_id_map[subgraph_id], op_position))\n"),
 ], (), 'one sorted array per subgraph and a binary search: the same maps', kind='twin')
+
+# which configuration governs a constant operand (C03.R6 table; seeded b12-C03)
+MMUF = 'algorithms/utils/min_max_quantize_utils.py'
+add('C03.missing_stats_weight_config', 'C03', (MMUF, "            graph_info,\n            op_info,\n        )\n      else:\n        raise ValueError(\n            f\"Tensor {tensor_name} not found in tensor_name_to_qsv. Check\"",
+    "            graph_info,\n            op_info,\n        )\n        tensor_quant_config = op_info.op_quant_config.weight_tensor_config\n      else:\n        raise ValueError(\n            f\"Tensor {tensor_name} not found in tensor_name_to_qsv. Check\""),
+    'C03.R6', 'a constant whose statistics are computed on the spot is quantized with the weight configuration, whatever the operator (seeded b12-C03)')
+add('C03.twin_quantized_dim_get', 'C03', (MMUF, "      quantized_dim = tfl_flatbuffer_utils.TFL_OP_TO_WEIGHT_QUANTIZED_DIM[\n          op_info.op_name\n      ]\n",
+    "      quantized_dim = tfl_flatbuffer_utils.TFL_OP_TO_WEIGHT_QUANTIZED_DIM.get(\n          op_info.op_name, None\n      )\n"), (), 'a tolerant table lookup for the quantized dimension: nothing else changes', kind='twin')
